@@ -24,8 +24,12 @@ def _alarm(signum, frame):
 
 
 def call_with_limit(fn, args, kwargs, seconds):
+    # the limit is CPU time of this process (ITIMER_PROF: user + system), so that a loaded machine cannot turn a slow but
+    # finishing call into a "timeout"; a generous wall-clock alarm (10x) remains for calls that block without computing
     signal.signal(signal.SIGALRM, _alarm)
-    signal.setitimer(signal.ITIMER_REAL, seconds)
+    signal.signal(signal.SIGPROF, _alarm)
+    signal.setitimer(signal.ITIMER_PROF, seconds)
+    signal.setitimer(signal.ITIMER_REAL, 10 * seconds)
     try:
         return ("return", fn(*args, **kwargs))
     except Timeout:
@@ -37,6 +41,7 @@ def call_with_limit(fn, args, kwargs, seconds):
     except BaseException as e:  # noqa
         return ("raise", e)
     finally:
+        signal.setitimer(signal.ITIMER_PROF, 0)
         signal.setitimer(signal.ITIMER_REAL, 0)
 
 
@@ -49,8 +54,9 @@ def check_one(con, hooks, inputs, timeout_s):
     built = hooks["build"](inputs)
     env = specrt.make_env(con.defs, built.get("env", {}))
     ens = [specrt.Clause(l, t) for (l, t) in con.ensures_]
+    exc_ens = [(e, specrt.Clause(l, t)) for (e, l, t) in getattr(con, "exc_ensures_", [])]
     problems = []
-    for c in ens:
+    for c in ens + [c for (_, c) in exc_ens]:
         try:
             c.snapshot(env)
         except Exception as e:
@@ -80,6 +86,13 @@ def check_one(con, hooks, inputs, timeout_s):
         names = exc_names(val) if not isinstance(val, str) else [val]
         summary["exception"] = names[0]
         declared = [e for (e, w, iff) in con.raises_]
+        for (e, c) in exc_ens:
+            if e in names:
+                try:
+                    if not c.holds(env):
+                        failed.append(c.label)
+                except Exception as ex:
+                    problems.append(f"clause {c.label}: {ex!r}")
         if not any(n in declared for n in names):
             failed.append(f"no-undeclared-exception.{names[0]}")
         else:
